@@ -43,7 +43,7 @@ pub fn workbook(fmt: &str) -> Vec<u8> {
             }
             let mut s0 = xlsx::XSheet::new(S[0], cells);
             s0.merges = vec!["B2:C2".into(), "E8:F9".into()];
-            s0.tables = vec![xlsx::XTable { name: "T1".into(), display_name: "T1".into(), rf: "B2:D6".into(), header_rows: None, totals_rows: None, columns: vec!["k".into(), "v".into(), "d".into()] }];
+            s0.tables = vec![xlsx::XTable { name: "T1".into(), display_name: "T1".into(), rf: "B2:D6".into(), header_rows: None, totals_rows: None, totals_row_shown: None, columns: vec!["k".into(), "v".into(), "d".into()] }];
             b.sheets.push(s0);
             let mut ch = xlsx::XSheet::new(S[1], vec![]); ch.kind = xlsx::SheetKind::Chart; b.sheets.push(ch);
             let mut o = xlsx::XCell::new(0, 0, xlsx::XVal::Num("3".into())); o.formula = Some(xlsx::XFormula::Plain("1+2".into()));
